@@ -34,7 +34,8 @@ ASSUMPTIONS = ['the operator table is taken from factory.operators (a deliberate
 BOUNDS = {
     'quick': 'default table: n<=2,k<=2 and n=3,k<=1; legacy: n<=2,k<=2; delegates engine: n<=2; parens/shapes n<=2; '
              'every single insert_operator call over 12 anchors x 6 new operators x create_group, homogeneous ones parsed '
-             'on all expressions n=1,k<=2 and n=2,k<=1 containing the new symbol',
+             'on all expressions n=1,k<=2 and n=2,k<=1 containing the new symbol; the same on the legacy factory (one-space rendering) over 7 anchors '
+             "(incl. its '=>' group and its last group '->')",
     'thorough': 'default table: n<=3,k<=2 and n=4,k=0; legacy: n<=3,k<=1 (k<=2 for n<=2); all ordered pairs of insert_operator '
                 'calls (second call over 6 anchors + the first new operator as anchor), homogeneous ones parsed '
                 'on n=1,k<=1 and n=2,k=0 containing a new symbol, one-space rendering',
@@ -71,6 +72,16 @@ def single_inserts():
     return [(a, b, s, t, cg) for (a, b) in ANCHORS for (s, t) in NEW for cg in (False, True)]
 
 
+# the same API on the legacy factory (whose own table was produced by an insertion): anchors include its '=>' group
+# and its last group
+LEGACY_ANCHORS = [(None, True), ('*', True), ('not', False), ('or', True), ('=>', True), ('->', True), ('=>', False)]
+CUSTOM_KINDS = ('custom', 'legacy-custom')
+
+
+def legacy_inserts():
+    return [(a, b, s, t, cg) for (a, b) in LEGACY_ANCHORS for (s, t) in NEW for cg in (False, True)]
+
+
 SECOND_ANCHORS = [(None, True), ('*', True), ('-', False), ('not', False), ('->', True), ('nope', True)]
 
 
@@ -83,13 +94,12 @@ def second_inserts(first):
 def build(spec):
     """spec -> (factory | None, expected groups | 'ValueError', observed groups | 'ValueError')."""
     kind = spec[0]
-    if kind == 'legacy':
+    if kind in ('legacy', 'legacy-custom'):
         f = ylegacy.YaqlFactory()
-        g = M.groups_of(f.operators)
-        return f, g, g
-    f = yaql.YaqlFactory(allow_delegates=(kind == 'delegates'))
+    else:
+        f = yaql.YaqlFactory(allow_delegates=(kind == 'delegates'))
     exp = obs = M.groups_of(f.operators)
-    if kind == 'custom':
+    if kind in CUSTOM_KINDS:
         for ins in spec[1]:
             if exp != 'ValueError':
                 try:
@@ -106,9 +116,9 @@ def build(spec):
 
 
 def label(spec):
-    if spec[0] != 'custom':
+    if spec[0] not in CUSTOM_KINDS:
         return spec[0]
-    return 'custom ' + ' ; '.join('%s/%s<-%s:%s%s' % (a, 'b' if b else 'u', s, t[:6], '+grp' if cg else '')
+    return spec[0] + ' ' + ' ; '.join('%s/%s<-%s:%s%s' % (a, 'b' if b else 'u', s, t[:6], '+grp' if cg else '')
                                   for (a, b, s, t, cg) in spec[1])
 
 
@@ -315,7 +325,7 @@ def judge(res, engine, spec, groups, table, symbols, tokens, seps=None):
             first_ok = ok
             res.outcomes[shape(obs)] += 1
         if not ok:
-            tk = spec[0] if spec[0] != 'custom' else 'custom new=%s' % ','.join(
+            tk = spec[0] if spec[0] not in CUSTOM_KINDS else spec[0] + ' new=%s' % ','.join(
                 '%s%s' % (i[3], '+group' if i[4] else '') for i in spec[1])
             if first_ok and sep_name != 'space':
                 key = 'whitespace-changes-tree table=%s sep=%s' % (tk, sep_name)
@@ -384,7 +394,8 @@ def _count(res, name):
 
 
 def _unordered(groups):
-    return groups if groups == 'ValueError' else [sorted(g) for g in groups]
+    """Order inside a group and empty groups carry no meaning."""
+    return groups if groups == 'ValueError' else [sorted(g) for g in M.dense(groups)]
 
 
 def job_custom(specs, plan):
@@ -395,8 +406,8 @@ def job_custom(specs, plan):
         res.transitions += 1
         ins = spec[1][-1]
         if _unordered(observed) != _unordered(groups):     # order inside a group carries no meaning
-            res.fail('insert-table-mismatch anchor=%s create_group=%s' % (
-                'none' if ins[0] is None else 'binary' if ins[1] else 'unary', ins[4]),
+            res.fail('insert-table-mismatch base=%s anchor=%s create_group=%s' % (
+                'legacy' if spec[0] == 'legacy-custom' else 'default', 'none' if ins[0] is None else 'binary' if ins[1] else 'unary', ins[4]),
                 {'kind': 'table', 'spec': spec}, 'observed %r expected %r' % (observed, groups))
         if groups == 'ValueError':
             _count(res, 'insert_sequences_expected_ValueError')
@@ -406,7 +417,13 @@ def job_custom(specs, plan):
             _count(res, 'insert_sequences_table_only_not_homogeneous')
             continue
         _count(res, 'insert_sequences_homogeneous_engine_built_and_parsed')
-        engine = factory.create()
+        try:
+            engine = factory.create()
+        except Exception as e:        # a well-formed homogeneous table must yield an engine
+            res.fail('engine-build-failed base=%s new=%s' % ('legacy' if spec[0] == 'legacy-custom' else 'default',
+                                                             ','.join('%s%s' % (i[3], '+group' if i[4] else '') for i in spec[1])),
+                     {'kind': 'table', 'spec': spec}, '%s: %s' % (type(e).__name__, str(e)[:200]))
+            continue
         table, bins, pre, post = table_parts(groups)
         symbols = table.symbols()
         new = {i[2] for i in spec[1]}
@@ -442,8 +459,11 @@ def jobs(tier, seed):
                       (('delegates',), 'delegate')):
         out.append(('%s-%s' % (spec[0], fam), 'job_misc', (spec, fam)))
     singles = [('custom', [ins]) for ins in single_inserts()]
-    for i, sl in enumerate(chunks(singles, 16)):
+    for i, sl in enumerate(chunks(singles, 12)):
         out.append(('custom-%02d' % i, 'job_custom', (sl, [(1, 2, T), (2, 1, T)])))
+    lsingles = [('legacy-custom', [ins]) for ins in legacy_inserts()]
+    for i, sl in enumerate(chunks(lsingles, 12)):
+        out.append(('legacy-custom-%02d' % i, 'job_custom', (sl, [(1, 2, F), (2, 1, F)])))      # one-space rendering
     if tier == 'thorough':
         pairs = [('custom', [s[1][0], second]) for s in singles if build(s)[1] != 'ValueError'
                  for second in second_inserts(s[1][0])]
@@ -458,10 +478,18 @@ def _tuplify(x):
 
 def replay(case):
     spec = _tuplify(case['spec'])
-    spec = (spec[0],) if spec[0] != 'custom' else ('custom', [tuple(i) for i in spec[1]])
+    spec = (spec[0],) if spec[0] not in CUSTOM_KINDS else (spec[0], [tuple(i) for i in spec[1]])
     factory, groups, observed = build(spec)
     if case['kind'] == 'table':
-        return {'observed': repr(observed), 'expected': repr(groups), 'ok': _unordered(observed) == _unordered(groups)}
+        built = 'not attempted'
+        if groups != 'ValueError' and M.well_formed(groups) and M.homogeneous(groups):
+            try:
+                factory.create()
+                built = 'engine built'
+            except Exception as e:
+                built = 'engine build failed: %s' % type(e).__name__
+        return {'observed': repr(observed), 'expected': repr(groups), 'engine': built,
+                'ok': _unordered(observed) == _unordered(groups) and not built.startswith('engine build failed')}
     tokens = [_tuplify(t) for t in case['tokens']]
     text = M.render(tokens, dict(SEPS)[case['sep']], M.Table(groups).symbols())
     if case['sep'] == 'wide':
